@@ -2323,8 +2323,8 @@ theorem mrun_eq_steps (s : State) (ms : List MOp) : ∃ ops, mrun s ms = steps s
     obtain ⟨ops, e⟩ := ih (mstep s m)
     exact ⟨expand s m ++ ops, by rw [steps_append]; exact e⟩
 
-theorem BInv.okPrompt {s : State} (h : BInv s) : okPrompt s = true := by
-  unfold Timers.okPrompt
+theorem BInv.okPrompt1 {s : State} (h : BInv s) : okPrompt1 s = true := by
+  unfold Timers.okPrompt1
   rw [List.all_eq_true]
   intro τ hτ
   obtain ⟨i, hi⟩ := List.mem_iff_getElem?.mp hτ
